@@ -59,6 +59,7 @@ class Ctx:
         self.prop = prop
         self.tier = tier
         self.obs: tp.List[Ob] = []
+        self._seen: tp.Dict[tp.Tuple[str, str, str, str, int], Ob] = {}
         self.floors: tp.Dict[str, int] = {}
         self.rule_text: tp.Dict[str, str] = {}
         self.notes: tp.List[str] = []
@@ -85,6 +86,10 @@ class Ctx:
         line = getattr(node, 'lineno', 0) if node is not None else 0
         k = key if key is not None else (norm(node)[:200] if node is not None else '')
         ob = Ob(rule, fq, file or ff, line, k, status, detail)
+        ident = (rule, fq, k, status, line)
+        if ident in self._seen:          # the same obligation reached along another path / world
+            return self._seen[ident]
+        self._seen[ident] = ob
         self.obs.append(ob)
         return ob
 
